@@ -216,13 +216,27 @@ pub struct GroupCfg {
     pub initial: Vec<(u8, u64)>,
     /// offer an UpdateMembers whose add list repeats an address
     pub dup_add: bool,
+    /// instantiate with this list instead of `initial`: (member, weight, spelled in UPPER case)
+    pub initial_spelled: Vec<(u8, u64, bool)>,
+    /// offer updates that name member 0 in lower and in UPPER case bech32 spelling
+    pub case_variants: bool,
     pub hmax: u64,
 }
 
 #[derive(Clone, Debug, Serialize, Deserialize)]
 pub enum GAct {
     Update { add: Vec<(u8, u64)>, remove: Vec<u8> },
+    /// an update whose entries carry a spelling flag (true = the address in UPPER case)
+    UpdateSpelled { add: Vec<(u8, u64, bool)>, remove: Vec<(u8, bool)> },
     Advance,
+}
+
+fn spelled(label: &str, upper: bool) -> String {
+    if upper {
+        a(label).to_uppercase()
+    } else {
+        a(label)
+    }
 }
 
 #[derive(Clone)]
@@ -299,16 +313,20 @@ impl Model for GroupHist {
         w.dispatch = false;
         let msg = cw4_group::msg::InstantiateMsg {
             admin: Some(Self::admin()),
-            members: cfg
-                .initial
-                .iter()
-                .map(|(i, wt)| Member { addr: a(cfg.names[*i as usize]), weight: *wt })
-                .collect(),
+            members: if cfg.initial_spelled.is_empty() {
+                cfg.initial.iter().map(|(i, wt)| Member { addr: a(cfg.names[*i as usize]), weight: *wt }).collect()
+            } else {
+                cfg.initial_spelled
+                    .iter()
+                    .map(|(i, wt, up)| Member { addr: spelled(cfg.names[*i as usize], *up), weight: *wt })
+                    .collect()
+            },
         };
         let out = w.instantiate(group_vt(), &a(GROUP), &a("creator"), &to_json_vec(&msg).unwrap(), &[]);
         let mut v = vec![];
         let mut r = Hist::default();
-        let mut dup = false;
+        // a list that repeats an account (also in another spelling) has no meaning fixed by the text
+        let mut dup = !cfg.initial_spelled.is_empty();
         for (i, wt) in &cfg.initial {
             if r.cur.insert(*i, *wt).is_some() {
                 dup = true;
@@ -362,6 +380,13 @@ impl Model for GroupHist {
             // the same address twice in the remove list
             out.push(GAct::Update { add: vec![], remove: vec![0, 0] });
         }
+        if cfg.case_variants {
+            let (w0, w1) = (cfg.weights[0], *cfg.weights.last().unwrap());
+            out.push(GAct::UpdateSpelled { add: vec![(0, w1, false), (0, w0.max(1), true)], remove: vec![] });
+            out.push(GAct::UpdateSpelled { add: vec![(0, w1, true)], remove: vec![] });
+            out.push(GAct::UpdateSpelled { add: vec![], remove: vec![(0, true)] });
+            out.push(GAct::UpdateSpelled { add: vec![(1, w1, false)], remove: vec![(0, true)] });
+        }
         if s.w.height < cfg.hmax {
             out.push(GAct::Advance);
         }
@@ -378,6 +403,27 @@ impl Model for GroupHist {
                 r.starts.push(r.cur.clone());
                 w.advance(1, DT);
                 ("AdvanceBlock", true)
+            }
+            GAct::UpdateSpelled { add, remove } => {
+                let msg = cw4_group::msg::ExecuteMsg::UpdateMembers {
+                    add: add
+                        .iter()
+                        .map(|(i, wt, up)| Member { addr: spelled(cfg.names[*i as usize], *up), weight: *wt })
+                        .collect(),
+                    remove: remove.iter().map(|(i, up)| spelled(cfg.names[*i as usize], *up)).collect(),
+                };
+                let out = w.execute_json(&Self::admin(), &a(GROUP), &msg, &[]);
+                if out.ok() {
+                    // which account an unusual spelling names is not fixed by the text: adopt the listing
+                    // as the membership and let the invariants judge (total, history, raw keys)
+                    if let Ok(l) = list_members(&w, &a(GROUP), 30) {
+                        r.cur = l
+                            .iter()
+                            .filter_map(|m| cfg.names.iter().position(|n| a(n) == m.addr).map(|i| (i as u8, m.weight)))
+                            .collect();
+                    }
+                }
+                ("UpdateMembers(other spelling)", out.ok())
             }
             GAct::Update { add, remove } => {
                 let msg = cw4_group::msg::ExecuteMsg::UpdateMembers {
